@@ -39,6 +39,8 @@ def standard(ctx, prop_mods, harness_args, driver_mode, stem, sources, rule, wha
                 kv.setdefault(a_stem + "." + k, v)
         extra_fail_files.append(os.path.join(ctx.work, f"{a_stem}.failures"))
     fails_file = os.path.join(ctx.work, f"{stem}.failures")
+    if not os.path.exists(fails_file) and "-" in stem:   # hist-tree / hist-filter rows come with hist.failures
+        fails_file = os.path.join(ctx.work, f"{stem.split('-')[0]}.failures")
     fails = [l for l in open(fails_file).read().splitlines() if l.strip()] if os.path.exists(fails_file) else []
     for ff in extra_fail_files:
         if os.path.exists(ff) and ff != fails_file:
@@ -63,7 +65,7 @@ def standard(ctx, prop_mods, harness_args, driver_mode, stem, sources, rule, wha
     if n_oracle:
         # group failures by known-finding key
         groups = {}
-        for f in fails:
+        for f in (fails or [f"{n_oracle} oracle failure(s) reported by the harness (no failure list found)"]):
             k = oracle_keyer(f) if oracle_keyer else None
             groups.setdefault(k, []).append(f)
         for k, fl in groups.items():
